@@ -1,6 +1,7 @@
 (* Replays queuetrace lines (see harness/cmd/queuetrace/main.go for the syntax).
-   eval: the extracted model (QueueModel.step on the ring-buffer state, with the oracle capacities
-         taken from the input annotations) predicts every record, head/n/len(vs) included.
+   eval: the extracted model at Go's int width (QueueModel.step64 = step wrap64 on the ring-buffer
+         state, regrowth through the C17 loop model of slice.Rotate, the oracle capacities taken
+         from the input annotations) predicts every record, head/n/len(vs) included.
    spec: the extracted reference (QueueSpec.spec_step on a plain list) is evaluated against the
          implementation's own records -- independent of the model, of head and of capacities. *)
 
@@ -15,35 +16,42 @@ let panic_str = function
   | M.PMakeLen -> "panic:index"     (* makeslice: len out of range *)
 
 let get = function
-  | M.Ok x -> x
-  | M.Panic k -> raise (Stop (panic_str k))
+  | M.QOk x -> x
+  | M.QPanic k -> raise (Stop (panic_str k))
   | M.BadOracle -> raise (Stop "bad-oracle")
+  | M.RotateFuel -> raise (Stop "rotate-out-of-fuel")
 
 let parse_init s =
   if s = "z" then M.IZero else if s = "n" then M.INew
-  else if String.length s > 1 && s.[0] = 's' then M.ISize (z_of_int (int_of_string (String.sub s 1 (String.length s - 1))))
+  else if String.length s > 1 && s.[0] = 's' then M.ISize (z_of_string (String.sub s 1 (String.length s - 1)))
   else failwith "bad init"
 
-let parse_op o : int M.op =
+let parse_op_with (value : string -> 'a) o : 'a M.op =
   let body, c = match String.index_opt o '^' with
-    | Some i -> String.sub o 0 i, int_of_string (String.sub o (i + 1) (String.length o - i - 1))
-    | None -> o, 0 in
-  let arg () = int_of_string (String.sub body 1 (String.length body - 1)) in
+    | Some i -> String.sub o 0 i, z_of_string (String.sub o (i + 1) (String.length o - i - 1))
+    | None -> o, z_of_int 0 in
+  let rest = String.sub body 1 (String.length body - 1) in
   match body.[0] with
-  | 'a' -> M.OAdd (arg (), z_of_int c)
-  | 'u' -> M.OPush (arg (), z_of_int c)
+  | 'a' -> M.OAdd (value rest, c)
+  | 'u' -> M.OPush (value rest, c)
   | 'p' -> M.OPop
   | 'l' -> M.OPopLast
   | 'c' -> M.OClear
+  | 'k' -> M.OPeek (z_of_string rest)   (* any int, math.MinInt included *)
   | _ -> failwith "bad op"
+
+let parse_op o : int M.op = parse_op_with int_of_string o
+let parse_uop o : unit M.op = parse_op_with (fun _ -> ()) o
 
 let parse_input inp =
   match words inp with
-  | ["H"; i; ops] ->
+  | [("H" | "U"); i; ops] ->
     let ops = if ops = "-" then [] else List.filter (fun x -> x <> "") (String.split_on_char ';' ops) in
     (i, ops)
-  | ["H"; i] -> (i, [])
+  | [("H" | "U"); i] -> (i, [])
   | _ -> failwith "bad input"
+
+let is_u inp = String.length inp > 0 && inp.[0] = 'U'
 
 let show_ret = function
   | M.RUnit -> "-"
@@ -72,18 +80,18 @@ let public_part (obs : int M.op -> int M.out) =
     (if slice = [] then "nil" else str_ints slice) (str_ints all) (str_ints half) (String.concat "," peeks)
 
 let model_record q ret =
-  let obs o = snd (get (M.step zero q o)) in
+  let obs o = snd (get (M.step64 zero q o)) in
   let ((h, n), c) = M.hook_state q in
   Printf.sprintf "%s/%d,%d,%d/%s" ret (int_of_z h) (int_of_z n) (int_of_z c) (public_part obs)
 
-let eval inp =
+let eval_h inp =
   let (i, ops) = parse_input inp in
   let recs = ref [] in
   (try
     let q = ref (get (M.mk_init zero (parse_init i))) in
     recs := model_record !q "-" :: !recs;
     List.iter (fun o ->
-      let (q', r) = get (M.step zero !q (parse_op o)) in
+      let (q', r) = get (M.step64 zero !q (parse_op o)) in
       q := q';
       recs := model_record q' (show_ret r) :: !recs) ops
   with Stop s -> recs := s :: !recs);
@@ -95,11 +103,12 @@ let public_of_record r =
   | ret :: _hook :: rest -> Some (ret, String.concat "/" rest)
   | _ -> None
 
-let spec prop inp out =
-  if prop <> "C07" then None else
+let spec_h inp out =
   let (i, ops) = parse_input inp in
   match parse_init i with
-  | M.ISize k when int_of_z k < 0 -> None      (* NewSize of a negative size: nothing is promised *)
+  | M.ISize (M.Zneg _) -> None
+    (* NewSize of a negative size: nothing is documented, so nothing is demanded here; what the
+       code does (the constructor panics in make, C07_newsize_negative) is pinned by eval *)
   | _ ->
     let recs = if out = "" then [] else String.split_on_char ';' out in
     let l = ref [] in
@@ -128,5 +137,121 @@ let spec prop inp out =
        (match check "after construction" r0 (expect "-") with
         | Some e -> Some e
         | None -> go 0 ops rest))
+
+(* ---- U lines: queue.Queue[struct{}] replayed on the length-only model (QueueUnitModel, proved to
+   be the main model on unit elements); values beyond OCaml's 63-bit ints are printed from Z ---- *)
+
+let ushow_ret = function
+  | M.UUnit -> "-"
+  | M.UVal ok -> b01 ok
+  | _ -> "?"
+
+(* the public part of a U record from any observer giving (Len, IsEmpty, Front reachable, Slice
+   length, Each calls, Peek ok) *)
+let upublic ~len ~empty ~slice ~each ~peek =
+  let all = each (len + 1) and half = each (len / 2) in
+  let peeks = String.concat "" (List.map (fun k -> b01 (peek k)) (range (-(len + 2)) (len + 1))) in
+  Printf.sprintf "%d,%s/%d/%d/%d/%s" len (b01 empty) slice all half peeks
+
+let umodel_record ustep q ret =
+  let obs o = snd (get (ustep q o)) in
+  let cnt = function M.UList k -> int_of_z k | _ -> failwith "list" in
+  let len = match obs M.OLen with M.UInt z -> int_of_z z | _ -> failwith "len" in
+  let empty = match obs M.OIsEmpty with M.UBool b -> b | _ -> failwith "empty" in
+  ignore (obs M.OFront);
+  let ((h, n), c) = M.uhook_state q in
+  Printf.sprintf "%s/%s,%s,%s/%s" ret (string_of_z h) (string_of_z n) (string_of_z c)
+    (upublic ~len ~empty ~slice:(cnt (obs M.OSlice))
+       ~each:(fun m -> cnt (obs (M.OEach (nat_of_int m))))
+       ~peek:(fun k -> match obs (M.OPeek (z_of_int k)) with M.UVal ok -> ok | _ -> failwith "peek"))
+
+let eval_u_with ustep inp =
+  let (i, ops) = parse_input inp in
+  let recs = ref [] in
+  (try
+    let q = ref (get (M.umk_init (parse_init i))) in
+    recs := umodel_record ustep !q "-" :: !recs;
+    List.iter (fun o ->
+      let (q', r) = get (ustep !q (parse_uop o)) in
+      q := q';
+      recs := umodel_record ustep q' (ushow_ret r) :: !recs) ops
+  with Stop s -> recs := s :: !recs);
+  String.concat ";" (List.rev !recs)
+
+let eval inp = if is_u inp then eval_u_with M.ustep64 inp else eval_h inp
+
+(* the reference for U lines: the same plain list, of units *)
+let spec_u_plain inp out =
+  let (i, ops) = parse_input inp in
+  match parse_init i with
+  | M.ISize (M.Zneg _) -> None
+  | _ ->
+    let recs = if out = "" then [] else String.split_on_char ';' out in
+    let l = ref [] in
+    let expect ret =
+      let obs o = snd (M.spec_step () !l o) in
+      let len = match obs M.OLen with M.RInt z -> int_of_z z | _ -> failwith "len" in
+      let empty = match obs M.OIsEmpty with M.RBool b -> b | _ -> failwith "empty" in
+      let cnt = function M.RList x -> List.length x | _ -> failwith "list" in
+      ret ^ "/" ^ upublic ~len ~empty ~slice:(cnt (obs M.OSlice))
+        ~each:(fun m -> cnt (obs (M.OEach (nat_of_int m))))
+        ~peek:(fun k -> match obs (M.OPeek (z_of_int k)) with M.RVal (_, ok) -> ok | _ -> failwith "peek") in
+    let show_sret = function M.RUnit -> "-" | M.RVal (_, ok) -> b01 ok | _ -> "?" in
+    let check what r want =
+      match public_of_record r with
+      | None -> Some (Printf.sprintf "%s: implementation gave %s, the reference sequence gives %s" what r want)
+      | Some (ret, pub) ->
+        let got = ret ^ "/" ^ pub in
+        if got = want then None
+        else Some (Printf.sprintf "%s: observables %s differ from the reference sequence's %s (ret/Len,IsEmpty/len(Slice)/Each calls/Each-stopped calls/Peek ok flags)" what got want) in
+    let rec go k ops recs =
+      match ops, recs with
+      | [], [] -> None
+      | [], _ :: _ -> Some "more records than operations"
+      | _ :: _, [] -> Some (Printf.sprintf "history ended after %d operations (record missing)" k)
+      | o :: ops', r :: recs' ->
+        let (l', ret) = M.spec_step () !l (parse_uop o) in
+        l := l';
+        (match check (Printf.sprintf "after op #%d (%s)" (k + 1) o) r (expect (show_sret ret)) with
+         | Some e -> Some e
+         | None -> go (k + 1) ops' recs') in
+    (match recs with
+     | [] -> Some "no record"
+     | r0 :: rest ->
+       (match check "after construction" r0 (expect "-") with
+        | Some e -> Some e
+        | None -> go 0 ops rest))
+
+(* a decimal string of a non-negative integer above 2^62 *)
+let above_2_62 s =
+  let b = "4611686018427387904" in
+  String.length s > 0 && s.[0] <> '-' &&
+  (String.length s > String.length b || (String.length s = String.length b && s > b))
+
+(* does some buffer of this history (initial size or a recorded growth capacity) exceed 2^62 slots? *)
+let beyond_bound inp =
+  let (i, ops) = parse_input inp in
+  (String.length i > 1 && i.[0] = 's' && above_2_62 (String.sub i 1 (String.length i - 1))) ||
+  List.exists (fun o -> match String.index_opt o '^' with
+    | Some j -> above_2_62 (String.sub o (j + 1) (String.length o - j - 1)) | None -> false) ops
+
+(* Known finding F11 (queue.Add: head+n overflows int on buffers longer than 2^62 slots).  A failure
+   is attributed to it only when (a) some buffer of the history is that long, (b) the model at Go's
+   int width reproduces the implementation's output on this very input, and (c) the same model with
+   unbounded integers satisfies the reference on it. *)
+let spec_u inp out =
+  match spec_u_plain inp out with
+  | None -> None
+  | Some reason ->
+    let known =
+      beyond_bound inp
+      && (try eval_u_with M.ustep64 inp = out with _ -> false)
+      && (try spec_u_plain inp (eval_u_with M.ustep_ideal inp) = None with _ -> false) in
+    Some (if known then reason ^ " known=F11" else reason)
+
+let spec prop inp out =
+  if prop <> "C07" then None
+  else if is_u inp then spec_u inp out
+  else spec_h inp out
 
 let () = run_main ~eval ~spec
